@@ -26,15 +26,16 @@ MIDS = ["NewMid", "OldMid"]
 TASKS = ["NewTask", "RenamedTask", "MovedTask"]
 BIGS = ["NewBig", "OldBig"]
 AUXES = ["NewAux", "OldAux"]
-EQUIV = [LEAVES, MIDS, TASKS, BIGS, AUXES]
-OLD = {"OldLeaf", "OlderLeaf", "OldMid", "RenamedTask", "MovedTask", "OldBig", "OldAux"}
+PLAINS = ["PlainLearner", "OldPlainLearner"]      # classes defined in a plain file (harness/vpk_c20_plain.py), not in a package
+EQUIV = [LEAVES, MIDS, TASKS, BIGS, AUXES, PLAINS]
+OLD = {"OldLeaf", "OlderLeaf", "OldMid", "RenamedTask", "MovedTask", "OldBig", "OldAux", "OldPlainLearner"}
 OLD2NEW = {"OldLeaf": "NewLeaf", "OlderLeaf": "NewLeaf", "OldMid": "NewMid", "RenamedTask": "NewTask",
-           "MovedTask": "NewTask", "OldBig": "NewBig", "OldAux": "NewAux"}
+           "MovedTask": "NewTask", "OldBig": "NewBig", "OldAux": "NewAux", "OldPlainLearner": "PlainLearner"}
 # parameters declared Meta[...] in vpk_c20 (ignored by the identifier unless the value is flagged setmeta(., False))
 META_PARAMS = {"aux", "auxes"}
 # parameters without a default, per family of classes (spec reductions never drop them)
 REQUIRED = {"NewLeaf": {"v"}, "NewAux": {"x"}, "NewMid": {"w", "leaf"}, "Plain": {"z"}, "NewTask": {"x"},
-            "Holder": {"n"}, "NewBig": {"n", "mid"}}
+            "Holder": {"n"}, "NewBig": {"n", "mid"}, "PlainLearner": {"x", "model"}, "PlainModel": {"layers"}}
 
 
 def pick(rng, names, p_old):
@@ -88,7 +89,10 @@ def gen_plain(rng, p):
 
 
 def gen_task(rng, p):
-    k = rng.choices(["task", "holder", "big"], [4, 4, 3])[0]
+    k = rng.choices(["task", "holder", "big", "plainfile"], [4, 4, 3, 1])[0]
+    if k == "plainfile":
+        return {"c": pick(rng, PLAINS, max(p, 0.6)),
+                "a": {"x": rng.randrange(3), "model": {"c": "PlainModel", "a": {"layers": rng.randrange(3)}}}}
     if k == "task":
         a = {"x": rng.randrange(4)}
         if rng.random() < 0.4:
@@ -231,7 +235,7 @@ def gen_case(rng, name, real):
     r = lambda: rng.randrange(len(jobs))  # noqa: E731
     for t in range(rng.choice([0, 0, 0, 1, 1, 2, 3])):
         kind = rng.choices(["same", "other", "dangling", "extra", "chain", "future", "mkdir", "copy", "corrupt",
-                            "rmparams", "mvnew"], [4, 3, 4, 2, 1, 1, 2, 3, 2, 1, 2])[0]
+                            "rmparams", "mvnew", "linked-corrupt", "linked-claimant"], [4, 3, 4, 2, 1, 1, 2, 3, 2, 1, 2, 2, 2])[0]
         i, j = r(), r()
         if kind == "same":
             manual.append(["link", {"new": i}, {"old": i}])
@@ -252,6 +256,14 @@ def gen_case(rng, name, real):
             manual.append(["copy", {"new": i}, j, f"{j}-{t}"])
         elif kind == "corrupt":
             manual.append(["corrupt", i])
+        elif kind == "linked-corrupt":
+            # an earlier repair linked the job, then its class was deleted from the code: the record cannot be loaded any more
+            manual.append(["link", {"new": i}, {"old": i}])
+            manual.append(["corrupt", i])
+        elif kind == "linked-claimant":
+            # an earlier repair gave the new identifier of job i to ANOTHER directory (usually of the same configuration:
+            # a variant stored under another former identifier) - which may hold no result while i does
+            manual.append(["link", {"new": i}, {"old": j}])
         elif kind == "rmparams":
             manual.append(["rmparams", i])
         else:
@@ -323,7 +335,7 @@ def well_shaped(tm, exp):
     for k, e in tm.items():
         if "link" in e:
             t = tm.get(tkey(e["link"])) if len(e["link"]) == 2 else None
-            if t is None or "link" in t or not t["params"]:
+            if t is None or "link" in t or not t["params"] or exp.get(t["mark"]) is None:
                 return False
     for k, e in tm.items():
         if "link" not in e and e["params"]:
@@ -339,11 +351,11 @@ class Rekey:
     """cases that only differ from the others by the way the workspace is designated and that show the symptom (links
     with a relative target): whatever goes wrong there is reported under one key"""
 
-    def __init__(self, c, key):
-        self.c, self.key = c, key
+    def __init__(self, c, key, why="workspace designated by a path relative to the current directory"):
+        self.c, self.key, self.why = c, key, why
 
     def violation(self, key, what, data):
-        self.c.violation(self.key, f"[workspace designated by a path relative to the current directory] {what} (clause {key})", data)
+        self.c.violation(self.key, f"[{self.why}] {what} (clause {key})", data)
 
 
 def finished(k, e, n):
@@ -358,6 +370,13 @@ def oracle(c, case, ans):
     if any(op.endswith("-rel") for op in case["ops"]) and any(
             "link" in e and len(e["link"]) != 2 for op in ans["ops"] for e in op["after"]):
         c = Rekey(c, "C20:relative-workspace-path")
+    # classes defined in a plain file whose record the repair command cannot load: whatever follows from it is one finding
+    if any(rc.get("state") == "failed" and set(classes_of(j["spec"])) & set(PLAINS) and f"{case['name']}:job{ix}" in
+           expected_recomp(case, ans)[0] and expected_recomp(case, ans)[0][f"{case['name']}:job{ix}"] is not None
+           for ix, (j, rc) in enumerate(zip(case["jobs"], ans.get("recomputed", [])))):
+        c = Rekey(c, "C20:recompute-fails:plain-file-classes",
+                  "classes defined in a plain file (not a package) and a job with a sub-configuration: load_objects executes the "
+                  "file once per object, the configuration-mode validation fails, `deprecated list` silently skips the job")
     exp, moved = expected_recomp(case, ans)
     state = ans["before"]
     info = dict(case=case)
@@ -468,6 +487,36 @@ def oracle(c, case, ans):
                                 "(the first the file system listed): a re-submit runs the job again although a result exists",
                                 dict(where, new=n, claimants=[dict(dir=k, mark=e["mark"], done=e["done"]) for k, e in cl],
                                      leads_to=None if r1 is None else r1[1]["mark"]))
+            # (7') ... also when the new identifier is ALREADY a link (left by an earlier repair) to a claimant without result
+            #      while another claimant holds one [open finding: link mode leaves such a link as it is, warning only]
+            for n, cl in claim.items():
+                at = tb.get(n)
+                r0 = resolve(tb, n)
+                if at is None or "link" not in at or r0 is None or not any(finished(k, e, n) for k, e in cl):
+                    continue
+                cands = cl + [(r0[0], r0[1])] if exp.get(r0[1]["mark"]) == n else None
+                if cands is None or finished(r0[0], r0[1], n):
+                    continue
+                r1 = resolve(ta, n)
+                if r1 is None or not any(r1[1]["mark"] == e["mark"] and finished(k, e, n) for k, e in cands):
+                    c.violation("C20:resubmit-misses-result:earlier-link-to-folder-without-result",
+                                "the new identifier is a link left by an earlier repair to a directory of the same configuration that "
+                                "holds no result; another directory stored under a former identifier holds the result; the repair "
+                                "leaves the link as it is (warning only): a re-submit does not find the existing result",
+                                dict(where, new=n, linked_to=r0[1]["mark"], claimants=[dict(dir=k, mark=e["mark"], done=e["done"]) for k, e in cl]))
+            # (10) --cleanup: a link towards a directory whose record cannot be loaded (nothing can be recomputed for it: it will
+            #      not be moved) is not removed - what was reachable stays reachable
+            if op["cleanup"]:
+                for x, e in tb.items():
+                    r0 = resolve(tb, x) if "link" in e else None
+                    if r0 is None or not r0[1]["params"] or exp.get(r0[1]["mark"]) is not None:
+                        continue
+                    r1 = resolve(ta, x)
+                    if r1 is None or r1[1]["mark"] != r0[1]["mark"]:
+                        c.violation("C20:cleanup-makes-reachable-job-unreachable",
+                                    f"{r0[1]['mark']} was reachable through the link {x} (an earlier repair); its record cannot be loaded any more "
+                                    "(class deleted from the code, module not importable), so --fix --cleanup does not move it - but its first "
+                                    "pass has removed the link: the job is not reachable any more", dict(where, link=x))
         # (8) the experiment indices (xp/<name>/jobs/<type>/<id>, links made by the scheduler) still lead to the data they led to
         idx_b = index
         index = op.get("index", index)
@@ -561,7 +610,10 @@ def g_case(item):
     ops = []
     for op in ans["ops"]:
         loops = op["loops"]
-        o1, o2 = (loops[0], loops[1]) if len(loops) >= 2 else ([], loops[0] if loops else [])
+        if op["fix"] and op["cleanup"]:      # two loops; an interrupted call may not have reached the second one
+            o1, o2 = (loops[0] if loops else []), (loops[1] if len(loops) >= 2 else [])
+        else:
+            o1, o2 = [], (loops[0] if loops else [])
         if op.get("examined") is not None:
             o2 = op["examined"]      # the directories in the order the main loop examined them (links are skipped by both)
         ops.append(f"{{| o_fix := {gbool(op['fix'])}; o_cleanup := {gbool(op['cleanup'])}; o_crash := {gbool(op.get('crashed'))}; "
@@ -964,6 +1016,9 @@ def run(c: Check):
             c.extra["disagreeing_loads_matching_truthy_only_meta_loader"] = f"{out.count('true')}/{len(sub)}"
     c.extra["disagreeing_cases"] = [dict(case={k: items[i][0][k] for k in ("jobs", "manual", "ops")},
                                          observed=items[i][1]) for i in bad[:3]]
+    if bad and os.environ.get("VERIF_C20_DUMP"):         # development aid: every disagreeing case, with its Gallina term
+        json.dump([dict(case={k: items[i][0][k] for k in ("jobs", "manual", "ops")}, observed=items[i][1],
+                        gallina=g_case(items[i])) for i in bad], open(os.environ["VERIF_C20_DUMP"], "w"))
     if bad:
         # diagnostic only (no obligation): do the disagreeing cases behave like the literal model of the pinned commit?
         sub = [items[i] for i in bad[:150]]
